@@ -2,7 +2,7 @@
 
 use derivative::Derivative;
 use miette::SourceSpan;
-use printer::tokens::{ELSE, EQQ, GT, GTE, IF, LT, LTE, NEQ, ZERO};
+use printer::tokens::{ELSE, EQQ, GT, GTE, IF, LT, LTE, MINUS, NEQ, ZERO};
 use printer::*;
 
 use crate::syntax::*;
@@ -26,6 +26,20 @@ pub enum IfSort {
     Greater,
     /// `>=`
     GreaterOrEqual,
+}
+
+impl IfSort {
+    /// This function returns the comparison obtained by swapping the operands.
+    fn mirrored(&self) -> &'static IfSort {
+        match self {
+            IfSort::Equal => &IfSort::Equal,
+            IfSort::NotEqual => &IfSort::NotEqual,
+            IfSort::Less => &IfSort::Greater,
+            IfSort::LessOrEqual => &IfSort::GreaterOrEqual,
+            IfSort::Greater => &IfSort::Less,
+            IfSort::GreaterOrEqual => &IfSort::LessOrEqual,
+        }
+    }
 }
 
 impl Print for IfSort {
@@ -82,18 +96,42 @@ impl Print for IfC {
         cfg: &printer::PrintCfg,
         alloc: &'a printer::Alloc<'a>,
     ) -> printer::Builder<'a> {
-        let snd = match self.snd {
-            None => alloc.text(ZERO),
-            Some(ref snd) => snd.print(cfg, alloc),
+        // A literal zero next to a comparison operator is lexed together with the operator as a
+        // comparison with zero, so such operands must be printed in a way that parses back to the
+        // same tree.
+        let is_zero = |term: &Term| matches!(term, Term::Lit(Lit { lit: 0, .. }));
+        let condition = match self.snd {
+            // `0 <cmp> 0` is only obtained from the form with the zero on the left
+            None if is_zero(&self.fst) => alloc
+                .text(ZERO)
+                .append(alloc.space())
+                .append(self.sort.mirrored().print(cfg, alloc))
+                .append(alloc.space())
+                .append(self.fst.print(cfg, alloc)),
+            None => self
+                .fst
+                .print(cfg, alloc)
+                .append(alloc.space())
+                .append(self.sort.print(cfg, alloc))
+                .append(alloc.space())
+                .append(alloc.text(ZERO)),
+            Some(ref snd) => self
+                .fst
+                .print(cfg, alloc)
+                .append(alloc.space())
+                .append(self.sort.print(cfg, alloc))
+                .append(alloc.space())
+                // an explicit zero operand can only be written as `-0`
+                .append(if is_zero(snd) {
+                    alloc.text(MINUS).append(alloc.text(ZERO))
+                } else {
+                    snd.print(cfg, alloc)
+                }),
         };
         alloc
             .keyword(IF)
             .append(alloc.space())
-            .append(self.fst.print(cfg, alloc))
-            .append(alloc.space())
-            .append(self.sort.print(cfg, alloc))
-            .append(alloc.space())
-            .append(snd)
+            .append(condition)
             .append(alloc.space())
             .append(
                 alloc
